@@ -212,7 +212,7 @@ def run(oc, tier, seed, model_available, escalate):
                 errs.append("reported count %d not within [differing=%d, region=%d]" % (tcount, totdiff, region_sum))
             for e in errs:
                 oc.violations.append({"input": {"level": "cli", "argv": argv[2:], "kind": kind,
-                                                "files": {k: (v.hex() if len(v) < 300 else "<%d bytes>" % len(v)) for k, v in files.items()},
+                                                "files": {k: v.hex() for k, v in files.items()},
                                                 "random_stream_len": len(rec.log)},
                                       "impl": {"stdout": txt[-300:]}, "what": e})
             oc.count("cli:" + kind)
